@@ -474,7 +474,10 @@ impl Response {
     pub fn _parse_http_response_header_string(header_string: &str) -> Header {
         let header_parts: Vec<&str> = header_string.split(Header::NAME_VALUE_SEPARATOR).collect();
         let header_name = header_parts[0].to_string();
-        let raw_header_value = header_parts[1].to_string();
+        let mut raw_header_value = "".to_string();
+        if header_parts.get(1).is_some() {
+            raw_header_value = header_parts[1].to_string();
+        }
         let header_value = StringExt::truncate_new_line_carriage_return(&raw_header_value);
 
 
